@@ -12,8 +12,11 @@
 // See the License for the specific language governing permissions and
 // limitations under the License.
 
-//go:build !verif
-// +build !verif
+//go:build verif
+// +build verif
+
+// Identical to commit_amd64.s except that the first argument is referred to as
+// gp: newer assemblers parse "g" as the g register. Built only with -tags verif.
 
 #include "textflag.h"
 
@@ -21,10 +24,10 @@
 
 // See commit_noasm.go for a description of commitSleep.
 //
-// func commitSleep(g uintptr, waitingG *uintptr) bool
+// func commitSleep(gp uintptr, waitingG *uintptr) bool
 TEXT ·commitSleep(SB),NOSPLIT,$0-24
 	MOVQ waitingG+8(FP), CX
-	MOVQ g+0(FP), DX
+	MOVQ gp+0(FP), DX
 
 	// Store the G in waitingG if it's still preparingG. If it's anything
 	// else it means a waker has aborted the sleep.
